@@ -5,9 +5,11 @@ package main
 import (
 	"fmt"
 	"math/big"
+	"math/bits"
 
 	"github.com/tuneinsight/lattigo/v6/core/rgsw"
 	"github.com/tuneinsight/lattigo/v6/core/rlwe"
+	"github.com/tuneinsight/lattigo/v6/ring"
 
 	"verif/engine"
 	"verif/ref"
@@ -35,10 +37,10 @@ func shapes(logN int) []shape {
 	p := []uint64{nttPrime(logN, 1<<58, true, 0), nttPrime(logN, 1<<58, true, 1)}
 	return []shape{
 		{"q28lo", logN, []uint64{nttPrime(logN, 1<<28, true, 0)}, p},  // q>>29==0: 32-bit path without P
-		{"q28hi", logN, []uint64{nttPrime(logN, 1<<28, false, 0)}, p}, // idem, 29 significant bits
+		{"q28hi", logN, []uint64{nttPrime(logN, 5<<26, false, 0)}, p}, // idem, 29 significant bits but log2(q)=28.3
 		{"q56lo", logN, []uint64{nttPrime(logN, 1<<56, true, 0)}, p},  // single big prime
-		{"q56hi", logN, []uint64{nttPrime(logN, 1<<56, false, 0)}, p}, // 57 significant bits
-		{"q3mix", logN, []uint64{nttPrime(logN, 1<<45, true, 0), nttPrime(logN, 1<<32, false, 0), nttPrime(logN, 1<<40, true, 0)}, p},
+		{"q56hi", logN, []uint64{nttPrime(logN, 5<<54, false, 0)}, p}, // 57 significant bits but log2(q)=56.3
+		{"q3mix", logN, []uint64{nttPrime(logN, 1<<45, true, 0), nttPrime(logN, 5<<30, false, 0), nttPrime(logN, 1<<40, true, 0)}, p},
 	}
 }
 
@@ -93,6 +95,8 @@ func (m rlweMsg) coeffs(n int, Q *big.Int) []*big.Int {
 	}
 	return out
 }
+
+var rgswClasses = []string{"zero", "one", "minus-one", "monomial", "monomial-minus-one", "ternary"}
 
 type rgswMsg struct {
 	name string
@@ -166,6 +170,34 @@ func encryptRGSW(params rlwe.Parameters, sk *rlwe.SecretKey, levelQ, levelP, pw2
 	return ct
 }
 
+// wellFormedRGSW returns the library's RGSW encryption of g if every row decrypts to its gadget plaintext
+// within the declared noise bound, and a harness-built one otherwise.
+func wellFormedRGSW(params rlwe.Parameters, sk *rlwe.SecretKey, s []int64, levelQ, levelP, pw2 int, g []int64, seed uint64) (*rgsw.Ciphertext, string) {
+	ct := encryptRGSW(params, sk, levelQ, levelP, pw2, g)
+	if _, rowMax := rgswErrs(params, ct, s, g); rowMax.Cmp(big.NewInt(int64(params.NoiseBound()))) <= 0 {
+		return ct, "library"
+	}
+	ct = rgsw.NewCiphertext(params, levelQ, levelP, pw2)
+	buildRGSW(params, ct, s, g, seed)
+	return ct, "harness"
+}
+
+// digitsShort reports whether, for some prime of the chain, the base-two digits allocated by the library
+// (rlwe.Parameters.BaseTwoDecompositionVectorSize) cover fewer bits than the prime has, in which case the
+// decomposition drops the top bits of large residues and no noise bound can hold.
+func digitsShort(params rlwe.Parameters, levelQ, levelP, pw2 int) bool {
+	if pw2 == 0 || levelP > 0 {
+		return false
+	}
+	sizes := params.BaseTwoDecompositionVectorSize(levelQ, levelP, pw2)
+	for i, q := range params.Q()[:levelQ+1] {
+		if sizes[i]*pw2 < bits.Len64(q) {
+			return true
+		}
+	}
+	return false
+}
+
 func path(params rlwe.Parameters, levelQ, levelP int) string {
 	switch {
 	case levelP >= 1:
@@ -198,97 +230,121 @@ func extProdScenario(e epConfig) engine.Scenario {
 	return engine.Scenario{Name: name, Bound: -1, Fn: func(c *engine.Chooser) {
 		params := e.sh.params(e.np, e.ntt)
 		n := params.N()
-		gs := rgswMsgs(n)
-		gi := c.Choose(len(gs), "g")
-		gm := gs[gi]
-		uni.Seed(c, name, gi)
+		classes := rgswClasses
+		ci := c.Choose(len(classes), "g-class")
+		cls := classes[ci]
+		uni.Seed(c, name, ci)
 
 		kgen := rlwe.NewKeyGenerator(params)
 		sk := kgen.GenSecretKeyNew()
 		s, sNorm1 := secretInts(params, sk)
 		pth := path(params, e.levelQ, e.levelP)
-
-		ctG := encryptRGSW(params, sk, e.levelQ, e.levelP, e.pw2, gm.g)
-		if got := ctG.Value[0].BaseTwoDecomposition; got != e.pw2 {
-			c.Fail("C20/rgsw/NewCiphertext/BaseTwoDecomposition", "requested %d got %d", e.pw2, got)
-			return
-		}
-
-		// RGSW encryption = two gadget encryptions of g and g·s: every row decrypts to its gadget
-		// plaintext with fresh noise within the declared truncation bound of the error distribution.
 		Be := big.NewInt(int64(params.NoiseBound()))
-		_, rowMax := rgswErrs(params, ctG, s, gm.g)
-		if rowMax.Cmp(Be) > 0 {
-			c.Fail("C20/rgsw/Encrypt/row-noise/"+pth, "%s g=%s: max row error %v > noise bound %v", name, gm.name, rowMax, Be)
-			return
-		}
-
 		Q := uni.QAtLevel(params, e.levelQ)
-		bound := extProdBound(params, ctG, Be, sNorm1)
-		if new(big.Int).Lsh(bound, 2).Cmp(Q) >= 0 {
-			// decomposition too coarse for this modulus: the bound says nothing (e.g. one big prime, no P, no digits)
-			c.Cover("vacuous-config", pth)
-			c.Skip("worst-case noise bound >= Q/4")
-			return
+		short := digitsShort(params, e.levelQ, e.levelP, e.pw2)
+		if short {
+			c.Cover("digits", "shorter-than-modulus")
 		}
-
 		enc := rlwe.NewEncryptor(params, sk)
 		eval := rgsw.NewEvaluator(params, nil)
-		worst := new(big.Int)
-		evals := 0
-		for _, m := range rlweMsgs(n) {
-			mc := m.coeffs(n, Q)
-			pt := newPlaintext(params, e.levelQ, mc)
-			ct := rlwe.NewCiphertext(params, 1, e.levelQ)
-			if err := enc.Encrypt(pt, ct); err != nil {
+
+		// fresh encryptions of every message, with their exact phases m+e
+		msgs := rlweMsgs(n)
+		cts := make([]*rlwe.Ciphertext, len(msgs))
+		phases := make([][]*big.Int, len(msgs))
+		for i, m := range msgs {
+			cts[i] = rlwe.NewCiphertext(params, 1, e.levelQ)
+			if err := enc.Encrypt(newPlaintext(params, e.levelQ, m.coeffs(n, Q)), cts[i]); err != nil {
 				panic(err)
 			}
-			phIn := uni.Phase(params, &ct.Element, sk)
-			want := centerAll(mulBigSmall(phIn, gm.g), Q)
+			phases[i] = uni.Phase(params, &cts[i].Element, sk)
+		}
 
-			for mode := 0; mode < 2; mode++ {
-				var out *rlwe.Ciphertext
-				in := ct.CopyNew()
-				if mode == 0 {
-					out = rlwe.NewCiphertext(params, 1, e.levelQ)
-					for k := range out.Value {
-						for a := range out.Value[k].Coeffs {
-							for b := range out.Value[k].Coeffs[a] {
-								out.Value[k].Coeffs[a][b] = 0x5EED + uint64(b) // stale content must not leak
+		worst := new(big.Int)
+		var bound *big.Int
+		evals := 0
+		for gi, gm := range rgswMsgs(n) {
+			if gm.cls != cls {
+				continue
+			}
+			// RGSW(g) from the library's encryptor when its rows are well formed (judged in the rgswenc/ scenarios),
+			// otherwise a textbook encryption built by the harness, so that the evaluator is judged on its own.
+			ctG, src := wellFormedRGSW(params, sk, s, e.levelQ, e.levelP, e.pw2, gm.g, c.Seed^uint64(gi+1))
+			c.Cover("rgsw-source", src)
+			bound = extProdBound(params, ctG, Be, sNorm1)
+			if new(big.Int).Lsh(bound, 2).Cmp(Q) >= 0 {
+				// decomposition too coarse for this modulus: the bound says nothing (e.g. one big prime, no P, no digits)
+				c.Cover("vacuous-config", pth)
+				c.Skip("worst-case noise bound >= Q/4")
+				return
+			}
+			for mi, m := range msgs {
+				ct := cts[mi]
+				want := centerAll(mulBigSmall(phases[mi], gm.g), Q)
+				for mode := 0; mode < 2; mode++ {
+					var out *rlwe.Ciphertext
+					in := ct.CopyNew()
+					if mode == 0 {
+						out = rlwe.NewCiphertext(params, 1, e.levelQ)
+						for k := range out.Value {
+							for a := range out.Value[k].Coeffs {
+								for b := range out.Value[k].Coeffs[a] {
+									out.Value[k].Coeffs[a][b] = 0x5EED + uint64(b) // stale content must not leak
+								}
 							}
 						}
+					} else {
+						out = in
 					}
-				} else {
-					out = in
-				}
-				eval.ExternalProduct(in, ctG, out)
-				evals++
-				modeName := [2]string{"fresh", "inplace"}[mode]
-				if mode == 0 && !in.Equal(ct) {
-					c.Fail("C20/extprod/input-modified/"+pth, "%s g=%s m=%s: input ciphertext changed by an out-of-place product", name, gm.name, m.name)
-				}
-				// The product of an NTT-domain RLWE ciphertext is returned in the NTT domain.
-				got := uni.Phase(params, &out.Element, sk)
-				diff := uni.SubCentered(got, want, Q)
-				nz := ref.InfNorm(diff)
-				if nz.Cmp(worst) > 0 {
-					worst = nz
-				}
-				if nz.Cmp(bound) > 0 {
-					c.Fail("C20/extprod/"+pth+"/"+modeName+"/noise", "%s g=%s m=%s out=%s: ‖phase(out) − phase(in)·g‖∞ = %v (2^%d) > worst-case bound %v (2^%d), Q≈2^%d",
-						name, gm.name, m.name, modeName, nz, nz.BitLen(), bound, bound.BitLen(), Q.BitLen())
+					eval.ExternalProduct(in, ctG, out)
+					evals++
+					modeName := [2]string{"fresh", "inplace"}[mode]
+					if mode == 0 && !in.Equal(ct) {
+						c.Fail("C20/extprod/input-modified/"+pth, "%s g=%s m=%s: input ciphertext changed by an out-of-place product", name, gm.name, m.name)
+					}
+					// The result is read in the domain announced by out.IsNTT. For a coefficient-domain input the
+					// documentation does not say in which domain the result comes back (the RGSW operand is always in
+					// the NTT domain), so there the NTT reading is accepted as well.
+					got := uni.Phase(params, &out.Element, sk)
+					nz := ref.InfNorm(uni.SubCentered(got, want, Q))
+					if !e.ntt && nz.Cmp(bound) > 0 {
+						md := *out.MetaData
+						md.IsNTT = true
+						alt := rlwe.Element[ring.Poly]{MetaData: &md, Value: out.Value}
+						if nz2 := ref.InfNorm(uni.SubCentered(uni.Phase(params, &alt, sk), want, Q)); nz2.Cmp(bound) <= 0 {
+							nz = nz2
+							c.Cover("nonNTT-result", "NTT-domain-with-IsNTT=false/"+pth)
+						}
+					}
+					if nz.Cmp(worst) > 0 {
+						worst = nz
+					}
+					if nz.Cmp(bound) > 0 {
+						sig := "C20/extprod/" + pth + "/" + modeName + "/noise"
+						switch {
+						case short:
+							sig = "C20/extprod/base2-digits-shorter-than-modulus"
+						case pth == "multipleP" && mode == 0:
+						case !e.ntt && pth != "multipleP":
+							sig = "C20/extprod/nonNTT-input-treated-as-NTT"
+						case !e.ntt:
+							sig = "C20/extprod/nonNTT-input/" + pth + "/" + modeName
+						}
+						c.Fail(sig, "%s g=%s m=%s out=%s: ‖phase(out) − phase(in)·g‖∞ = %v (2^%d) > worst-case bound %v (2^%d), Q≈2^%d",
+							name, gm.name, m.name, modeName, nz, nz.BitLen(), bound, bound.BitLen(), Q.BitLen())
+					}
 				}
 			}
 		}
 		c.Count(evals)
 		c.Cover("path", pth)
-		c.Cover("g", gm.cls)
+		c.Cover("g", cls)
 		c.Cover("shape", e.sh.name)
 		c.Cover("pw2", fmt.Sprint(e.pw2))
 		c.Cover("nP", fmt.Sprint(e.np))
 		c.Cover("ntt", fmt.Sprint(e.ntt))
-		c.Outcome(pth, gm.cls, log2Bucket(worst))
-		c.Note("g=%s: worst noise 2^%d, bound 2^%d, Q 2^%d", gm.name, worst.BitLen(), bound.BitLen(), Q.BitLen())
+		c.Outcome(pth, cls, log2Bucket(worst))
+		c.Note("g-class=%s: %d products, worst noise 2^%d, bound 2^%d, Q 2^%d", cls, evals, worst.BitLen(), bound.BitLen(), Q.BitLen())
 	}}
 }
 
@@ -310,6 +366,18 @@ func extProdScenarios(tier string) []engine.Scenario {
 				}
 			}
 		}
+	}
+	// coefficient-domain input ciphertexts (parameters with NTTFlag=false): a few configurations per code path
+	sh := shapes(4)
+	for _, e := range []epConfig{
+		{sh[0], 0, 0, -1, 7, false},  // 32bit
+		{sh[2], 0, 0, -1, 16, false}, // noP
+		{sh[4], 1, 2, 0, 0, false},   // singleP
+		{sh[2], 1, 0, 0, 16, false},  // singleP with digits
+		{sh[4], 2, 2, 1, 0, false},   // multipleP
+		{sh[2], 2, 0, 1, 0, false},   // multipleP, one Q prime
+	} {
+		scs = append(scs, extProdScenario(e))
 	}
 	return scs
 }
